@@ -100,10 +100,12 @@ func fields(ans string) map[string]string {
 }
 
 type failure struct {
-	Index  int      `json:"index"`
-	Op     string   `json:"op"`
-	Kind   string   `json:"kind"` // oracle | mismatch | crash | timeout
-	Detail []string `json:"detail"`
+	Index    int      `json:"index"`
+	Op       string   `json:"op"`
+	Kind     string   `json:"kind"` // oracle | mismatch | crash | timeout
+	Detail   []string `json:"detail"`
+	Shrunk   string   `json:"shrunk_op,omitempty"`     // a smaller op on which the property still fails
+	ShrunkBy []string `json:"shrunk_detail,omitempty"` // what fails on it
 }
 
 type result struct {
@@ -229,7 +231,7 @@ func main() {
 			res.Samples = append(res.Samples, s)
 		}
 		if crashedSet[i] {
-			res.Failures = append(res.Failures, failure{i, c.Op, "crash", []string{"the implementation process died (fatal error or watchdog) while running this op"}})
+			res.Failures = append(res.Failures, failure{Index: i, Op: c.Op, Kind: "crash", Detail: []string{"the implementation process died (fatal error or watchdog) while running this op"}})
 			return
 		}
 		if prog != nil {
@@ -248,12 +250,12 @@ func main() {
 		// separate quotas: mismatches must never crowd out a property violation
 		if len(v.Oracle) > 0 {
 			if nOracle < *maxFail {
-				res.Failures = append(res.Failures, failure{i, c.Op, "oracle", v.Oracle})
+				res.Failures = append(res.Failures, failure{Index: i, Op: c.Op, Kind: "oracle", Detail: v.Oracle})
 			}
 			nOracle++
 		} else if len(v.Mismatch) > 0 {
 			if nMismatch < *maxFail {
-				res.Failures = append(res.Failures, failure{i, c.Op, "mismatch", v.Mismatch})
+				res.Failures = append(res.Failures, failure{Index: i, Op: c.Op, Kind: "mismatch", Detail: v.Mismatch})
 			}
 			nMismatch++
 		}
@@ -289,10 +291,83 @@ func main() {
 		}
 		p.Gen(NewRng(uint64(*seed)), *tier, process)
 	}
+	// shrink the first property violation (never runs on a tree where the property holds)
+	for k := range res.Failures {
+		if res.Failures[k].Kind == "oracle" {
+			if so, sd := shrinkOp(p, res.Failures[k].Op, m, 25*time.Second); so != "" {
+				res.Failures[k].Shrunk, res.Failures[k].ShrunkBy = so, sd
+			}
+			break
+		}
+	}
 	res.ModelAsks = m.n
 	res.Complete = true
 	data, _ := json.MarshalIndent(res, "", " ")
 	os.WriteFile(*out, data, 0o644)
+}
+
+// shrinkOp: greedy removal of list elements (separated by ; , | /) from an op as long as the model
+// still accepts the op and the property oracle still fails on the implementation.
+func shrinkOp(p *Prop, op string, m *Model, budget time.Duration) (string, []string) {
+	deadline := time.Now().Add(budget)
+	fails := func(o string) []string {
+		if strings.HasPrefix(m.Ask(o), "bad-op") {
+			return nil
+		}
+		atomic.StoreInt64(&currentStart, time.Now().UnixNano())
+		v := runGuarded(p, Case{Op: o, NonTrivial: true}, m)
+		return v.Oracle
+	}
+	// split the last blank-separated fields into elements
+	isSep := func(c byte) bool { return c == ';' || c == ',' || c == '|' || c == '/' }
+	type elem struct {
+		sep  string
+		text string
+	}
+	split := func(o string) []elem {
+		var es []elem
+		cur, sep := "", ""
+		for i := 0; i < len(o); i++ {
+			if isSep(o[i]) {
+				es = append(es, elem{sep, cur})
+				cur, sep = "", string(o[i])
+			} else {
+				cur += string(o[i])
+			}
+		}
+		return append(es, elem{sep, cur})
+	}
+	join := func(es []elem) string {
+		var sb strings.Builder
+		for i, e := range es {
+			if i > 0 {
+				sb.WriteString(e.sep)
+			}
+			sb.WriteString(e.text)
+		}
+		return sb.String()
+	}
+	best := op
+	var bestDetail []string
+	es := split(op)
+	if len(es) < 3 {
+		return "", nil
+	}
+	for chunk := len(es) / 2; chunk >= 1; chunk /= 2 {
+		for i := 1; i+chunk <= len(es) && time.Now().Before(deadline); {
+			cand := append(append([]elem{}, es[:i]...), es[i+chunk:]...)
+			o := join(cand)
+			if d := fails(o); len(d) > 0 {
+				es, best, bestDetail = cand, o, d
+			} else {
+				i++
+			}
+		}
+	}
+	if best == op {
+		return "", nil
+	}
+	return best, bestDetail
 }
 
 func fnv64(s string) uint64 {
